@@ -125,6 +125,33 @@ def install_axioms(reg):
     for f in RAW_MOVERS:
         mover(f)
 
+    # numpy.choose(a, choices=<raw storage>, out=, mode=): the raw operand is the SECOND parameter
+    @reg.axiom("numpy.choose")
+    def _choose(ex, args, kw, node):
+        bound = bind_numpy(ex, "choose", args, kw, node)
+        raw = bound.get("choices")
+        if not isinstance(raw, ValuesView):
+            raise U("numpy.choose of these operands", node)
+        return MovedRaw(raw.poly, "choose", bound)
+
+    @reg.axiom("numpy.broadcast_arrays")
+    def _broadcast_arrays(ex, args, kw, node):
+        if not args or not all(isinstance(a, ValuesView) for a in args):
+            raise U("numpy.broadcast_arrays of these operands", node)
+        bound = dict(args=tuple(args))
+        extra = kw.get("**")
+        bound["kwargs"] = extra if extra is not None else {k: v for k, v in kw.items()}
+        # one call on all raw storages: piece k is operand k stretched to the common shape
+        return [MovedRaw(a.poly, "broadcast_arrays", bound, piece=k) for k, a in enumerate(args)]
+
+    prev_asarray = reg.fn["numpy.asarray"]
+
+    @reg.axiom("numpy.asarray")
+    def _asarray(ex, args, kw, node):
+        if len(args) == 1 and not kw and isinstance(args[0], (Tok, MovedRaw)):
+            return args[0]          # conversion to ndarray: the same numbers / the same records
+        return prev_asarray(ex, args, kw, node)
+
     def joiner(fname):
         prev = reg.fn.get(f"numpy.{fname}")
 
@@ -273,10 +300,81 @@ class RawWrapper(Contract):
         raise U(f"{self.func} as a callee", node)
 
 
+class Choose(RawWrapper):
+    """numpoly.choose(a, choices, out, mode) for a polynomial array of choices: numpy.choose on the whole raw storage of the
+    choices with the selection array and mode forwarded, names kept.  (A list of choice arrays is first broadcast and stacked:
+    bounded check.)"""
+
+    def __init__(self):
+        super().__init__("choose", ("a", "mode"))
+        self.assumptions = self.assumptions + ("choices given as one polynomial array, out=None (list of choices: bounded)",)
+
+    def cases(self):
+        def make_env(ex):
+            P = own_poly(ex, "choices")
+            ex.P = P
+            ex.toks = {p: Tok(p) for p in self.wparams}
+            return {"a": ex.toks["a"], "choices": P, "out": None, "mode": ex.toks["mode"]}
+
+        def check(out):
+            self._check(out, {})
+            r = out.value
+            m = getattr(r, "rewrap_of", None)
+            if out.kind == "return" and m is not None:
+                out.ex.oblige("post.out_not_used", z3.BoolVal(m.bound.get("out") is None), "post")
+        yield Case("", make_env, check)
+
+
+class BroadcastArrays(Contract):
+    """numpoly.broadcast_arrays(*args, **kwargs): ONE numpy.broadcast_arrays call on the raw storages of all operands in order
+    (so all are stretched to the same common shape by numpy), result k rebuilt from piece k under operand k's own names."""
+    name, func, relpath = "numpoly.broadcast_arrays", "broadcast_arrays", "numpoly/array_function/broadcast_arrays.py"
+    properties = ("C09", "C17")
+    assumptions = ("B6 (numpy.broadcast_arrays is dtype-agnostic: whole records are repeated); operands given as ndpoly; "
+                   "arity 2 enumerated (thorough tier: 3)",)
+
+    def cases(self):
+        from engine.contract import deep
+        for arity in ((2, 3) if deep() else (2,)):
+            def make_env(ex, arity=arity):
+                ps = sym_polys(ex, arity, broadcast=False)
+                ex.inputs = ps
+                ex.kwtok = Tok("kwargs")
+                return {"args": tuple(ps), "kwargs": {"subok": ex.kwtok}}
+
+            def check(out, arity=arity):
+                ex = out.ex
+                ex.oblige(f"raises.nothing[{out.exc}]" if out.kind == "raise" else "raises.nothing", z3.BoolVal(out.kind == "return"), "post")
+                if out.kind != "return":
+                    return
+                r = out.value
+                ok = isinstance(r, list) and len(r) == arity and all(isinstance(x, Poly) and getattr(x, "rewrap_of", None) is not None for x in r)
+                ex.oblige("post.one_rebuilt_array_per_operand", z3.BoolVal(ok), "post")
+                if not ok:
+                    return
+                for k, (x, P) in enumerate(zip(r, ex.inputs)):
+                    m = x.rewrap_of
+                    ex.oblige(f"post[{k}].numpy_namesake_applied", z3.BoolVal(m.fname == "broadcast_arrays"), "post")
+                    ex.oblige(f"post[{k}].piece_k_of_the_call_is_operand_k", z3.BoolVal(m.src is P and m.piece == k), "post")
+                    raws = m.bound.get("args", ())
+                    ex.oblige(f"post[{k}].one_call_on_all_operands_in_order", z3.BoolVal(
+                        len(raws) == arity and all(isinstance(a, ValuesView) and a.poly is Q for a, Q in zip(raws, ex.inputs))), "post",
+                        note="broadcasting each operand on its own would not give a common shape")
+                    nm = x.rewrap_names
+                    okn = (isinstance(nm, Poly) and getattr(nm, "indeterminants_of", None) is P) or (isinstance(nm, NamesV) and nm.term is P.names)
+                    ex.oblige(f"post[{k}].names_of_operand_k_kept", z3.BoolVal(bool(okn)), "post")
+                    kwb = m.bound.get("kwargs")
+                    ex.oblige(f"post[{k}].keywords_forwarded", z3.BoolVal(isinstance(kwb, dict) and kwb.get("subok") is ex.kwtok), "post")
+            yield Case(f"arity={arity}", make_env, check)
+
+    def apply(self, ex, args, kw, node):
+        raise U("broadcast_arrays as a callee", node)
+
+
 # ====================================================================== family 2
 class Joiner(Contract):
     properties = ("C09", "C17")
-    assumptions = ("B6 (column-wise joins with one index map move whole elements)", "arity 2 enumerated; out=None")
+    assumptions = ("B6 (column-wise joins with one index map move whole elements)", "arity 2 enumerated (thorough tier: also 3); out=None")
 
     def __init__(self, fname, seqname, has_axis):
         self.func, self.name = fname, f"numpoly.{fname}"
@@ -284,8 +382,13 @@ class Joiner(Contract):
         self.seqname, self.has_axis = seqname, has_axis
 
     def cases(self):
+        from engine.contract import deep
+        for arity in ((2, 3) if deep() else (2,)):
+            yield from self._cases(arity)
+
+    def _cases(self, arity):
         def make_env(ex):
-            ps = sym_polys(ex, 2, broadcast=False)
+            ps = sym_polys(ex, arity, broadcast=False)
             ex.inputs = ps
             ex.ghost = {}
             ex.hooks = {"after_align": lambda ex_, res: ex_.ghost.update(aligned=list(res))}
@@ -330,7 +433,7 @@ class Joiner(Contract):
             ex.oblige("post.dtype_is_numpy_promotion_of_the_operand_dtypes", r.dtype == want, "post",
                       note="the coefficient dtype of the join is that of the joined columns, not of the first operand")
             ex.oblige("post.fresh", z3.BoolVal(r.region.owner == "fresh"), "post")
-        yield Case("arity=2", make_env, check)
+        yield Case(f"arity={arity}", make_env, check)
 
     def apply(self, ex, args, kw, node):
         """concatenate(list of x_d[numpy.newaxis], axis=0) for a list of symbolic length: stacking.  Element (d, i) of the
@@ -558,7 +661,7 @@ CONTRACTS = [
     RawWrapper("atleast_1d", (), variadic=True), RawWrapper("atleast_2d", (), variadic=True), RawWrapper("atleast_3d", (), variadic=True),
     RawWrapper("split", ("indices_or_sections", "axis")), RawWrapper("array_split", ("indices_or_sections", "axis")),
     RawWrapper("hsplit", ("indices_or_sections",)), RawWrapper("vsplit", ("indices_or_sections",)),
-    RawWrapper("dsplit", ("indices_or_sections",)),
+    RawWrapper("dsplit", ("indices_or_sections",)), Choose(), BroadcastArrays(),
     Joiner("concatenate", "arrays", True), Joiner("stack", "arrays", True), Joiner("hstack", "tup", False),
     Joiner("vstack", "tup", False), Joiner("dstack", "tup", False),
 ]
